@@ -25,8 +25,8 @@ fn run(kinds: &[ValueKind], out: &mut Out) {
     out.emit(&json!({
         "e": "reset",
         "inp": {"kinds": names},
-        "out": value_kinds_description_json(kinds),
-        "qout": value_kinds_description_query_param(kinds),
+        "out": crate::util::quiet_catch(|| value_kinds_description_json(kinds)).unwrap_or_else(|m| format!("<panic: {m}>")),
+        "qout": crate::util::quiet_catch(|| value_kinds_description_query_param(kinds)).unwrap_or_else(|m| format!("<panic: {m}>")),
     }));
 }
 
